@@ -194,7 +194,10 @@ def run(ctx):
     fl_cases = function_level_cases(ctx) + function_level_cases_f64(ctx)
     fl_ok, fl_bad = ddcommon.run_dd(ctx, ["C10"], fl_cases, rule="", proofs=False, write_ev=False)
     # ---- the same traces against the extracted model of the apply algorithms / the F64 scalar model ----
-    mt_ok, mt_bad = run_mt(ctx, fl_cases)
+    # (package C10f: plus histories that only this driver sees: ITE with arbitrary conditions, PARSEC, more
+    #  boundary values; corpus/C10/*.mtcase first)
+    x_cases = function_level_cases_f64x(ctx)
+    mt_ok, mt_bad = run_mt(ctx, fl_cases + x_cases)
     ctx.samples = samples + [{"case": h, "ops": ops[:10]} for h, ops in fl_cases[:1] + fl_cases[-1:]]
     ctx.stats["distinct_nontrivial"] = len(distinct) + len({tuple(o) for _, o in fl_cases})
     vf.write_evidence(
@@ -242,6 +245,21 @@ def function_level_cases_f64(ctx):
             cases.append(ddgen.mtf_case_pairs_1var(f"fp{cid}", op, sw, 61, 121)); cid += 1
     for _ in range(600 if thorough else 60):
         cases.append(ddgen.mtf_case_history(f"fh{cid}", rng, threads=rng.choice([1, 1, 4]))); cid += 1
+    return cases
+
+
+def function_level_cases_f64x(ctx):
+    """MTBDD<F64> histories for the model replay only (not for the shared DD driver and its debug-profile pass):
+    corpus/C10/*.mtcase, then ddgen.mtf_case_history_x"""
+    rng = random.Random(ctx.seed * 7919 + 12)
+    cases = []
+    corpus_dir = os.path.join(vf.ROOT, "corpus", "C10")
+    if os.path.isdir(corpus_dir):
+        for fn in sorted(os.listdir(corpus_dir)):
+            if fn.endswith(".mtcase"):
+                cases += [("corpus-" + h, ops) for h, ops in vf.parse_cases(open(os.path.join(corpus_dir, fn)).read())]
+    for i in range(400 if ctx.tier == "thorough" else 40):
+        cases.append(ddgen.mtf_case_history_x(f"fx{i}", rng, threads=rng.choice([1, 1, 4])))
     return cases
 
 
